@@ -32,12 +32,12 @@ class Gen:
     def verbatim(self, out: Out, rel: str, kind: str, name_re: str):
         emit_verbatim(out, self.top(rel, kind, name_re), SRC + rel)
 
-    def opaque(self, out: Out, at: str, ty: str, occurrence: Optional[int] = None, generics: str = '', flex: bool = False) -> dict:
+    def opaque(self, out: Out, at: str, ty: str, occurrence: Optional[int] = None, generics: str = '', flex: bool = False, suffix: str = '') -> dict:
         """declare a contract-free external function returning `ty` and return the opaque-rule entry"""
         self.nopq += 1
         name = f'opaque_expr_{self.nopq}'
         trusted_chunk(out, f'    #[verifier::external_body]\n    fn {name}{generics}() -> {ty} {{ unimplemented!() }}\n')
-        d = {'at': at, 'type': ty, 'call': f'{name}()', 'flex': flex}
+        d = {'at': at, 'type': ty, 'call': f'{name}(){suffix}', 'flex': flex}
         if occurrence is not None:
             d['occurrence'] = occurrence
         return d
@@ -51,3 +51,18 @@ def sections(out: Out, fname: str, names: List[str]) -> List[str]:
 
 def spec_section(fname: str, name: str) -> str:
     return read_sections(os.path.join(C, fname), [name])[0]
+
+
+def emit_const_static(out: Out, it: Item, file: str, opaque_value: bool = False):
+    """a `const X: &T = ..` item: Verus' syntax macro wants the implied 'static lifetimes spelled out
+    (additive: `&` -> `&'static ` in the type, up to the `=`)"""
+    hf = it.head_first
+    text = it.src[it.toks[hf].start:it.end]
+    eq = text.index('=')
+    head = re.sub(r"&(?!\s*')", "&'static ", text[:eq])
+    if opaque_value:
+        out.spec('    #[verifier::external_body]')
+        out.chunks[-1].trusted = True
+        out.dropped.append(f'value of const {it.name} ({file}) is opaque to the verifier (array-to-slice coercion in a const is not supported)')
+    out.code(head + text[eq:] + '\n', file, it.line_of(it.toks[hf].start))
+    out.edits.append(f"const {it.name}: implied 'static lifetimes spelled out")
